@@ -7,6 +7,7 @@ import (
 	"errors"
 	"fmt"
 	"io"
+	"strings"
 
 	"github.com/ulikunitz/lz"
 	"verif/mc/engine"
@@ -177,6 +178,9 @@ type wrapRun struct {
 }
 
 func (r *wrapRun) fail(sig, format string, a ...any) {
+	if r.prop == "C16" && !(strings.HasPrefix(sig, "panic") || sig == "spin" || sig == "error") {
+		return // the stream properties are C08's; C16 judges panics, spins and undocumented errors
+	}
 	full := r.prop + "|" + r.pc.Kind + "|" + sig
 	var cs any
 	if !r.col.Seen(full) {
@@ -231,7 +235,7 @@ func (r *wrapRun) run(c *engine.Chooser) {
 			if _, ok := x.(engine.ReplayDivergence); ok {
 				panic(x)
 			}
-			r.fail("panic", "WrappedParser.Parse panicked: %v", x)
+			r.fail("panic|"+panicClass(x), "WrappedParser.Parse panicked: %v", x)
 		}
 	}()
 	var blk lz.Block
@@ -319,6 +323,9 @@ func (r *wrapRun) run(c *engine.Chooser) {
 				return
 			}
 		default:
+			if r.prop == "C16" && (err == lz.ErrFullBuffer || err == lz.ErrEmptyBuffer) {
+				return // documented errors; with ShrinkSize == BufferSize the stream legitimately cannot continue
+			}
 			r.fail("error", "WrappedParser.Parse returned undocumented error %v (n=%d)", err, n)
 			return
 		}
